@@ -10,13 +10,15 @@ def run(ctx):
     else:
         # quick: 8 endpoint kinds x 2 halves = 16 work groups + 1 long-stall scenario (dns, waits for the
         # listener's once-a-minute expiry sweep) = 17 work items, one child each, all at once.
-        # thorough: 13 kinds x 2 halves + 17 long-stall scenarios = 43 work items, one child each, 16 at a time.
+        # + 2 work items with the descriptor-exhaustion scenarios (6 kinds) = 19.
+        # thorough: 13 kinds x 2 halves + 17 long-stall scenarios + 9 descriptor-exhaustion work items (one per
+        # kind) = 52 work items, one child each, 16 at a time.
         if ctx.tier == "quick":
-            ctx.run_shards(b, "TestVerifC15", 17, 900, "c15", parallel=17)
+            ctx.run_shards(b, "TestVerifC15", 19, 900, "c15", parallel=19)
         else:
-            ctx.run_shards(b, "TestVerifC15", 43, 3000, "c15")
+            ctx.run_shards(b, "TestVerifC15", 52, 3000, "c15")
             br = ctx.build(pkg, race=True)
-            ctx.run_shards(br, "TestVerifC15", 17, 1500, "c15race", extra_env={"VERIF_TIER": "quick"}, race=True, parallel=17)
+            ctx.run_shards(br, "TestVerifC15", 19, 1500, "c15race", extra_env={"VERIF_TIER": "quick"}, race=True, parallel=19)
     return driver.finish(
         ctx, "fault_enumeration",
         "for every server endpoint kind {tcp, unix, tcp+tls, tcp+starttls, ws, wss, udp/KCP, dns} the real server is started and k scripted peers "
@@ -39,12 +41,19 @@ def run(ctx):
         "LONG STALLS (one scenario per work item): dns endpoint with every stall point and garbage layer at once, good client A first, sdns.ConnectionTimeout lowered to 30 s, the stall lasts until "
         "the listener's once-a-minute expiry sweep has been OBSERVED (hook counter; the number of sweeps needed follows from the measured instants) to run over the silent peers' sessions "
         "(thorough: one sweep more, single-point variants, dns+starttls, and a 40 s stall > smux keep-alive timeout on every other kind); meanwhile every 12 s A opens another logical connection or a new "
-        "client connects; then A again plus 2 new clients. No sweep observed and nothing failed = inconclusive. Oracle: every good logical connection completes under the stall rule (no wall-clock deadline) while the stalled "
+        "client connects; then A again plus 2 new clients. No sweep observed and nothing failed = inconclusive. "
+        "STALLED PEERS THAT USE A RESOURCE UP (stream endpoints with an accept loop: tcp, unix, tcp+tls, tcp+starttls, ws, wss; thorough also unix+tls, unix+starttls, ws+starttls; a child of "
+        "their own): client A connected first; the soft RLIMIT_NOFILE of the process (server, peers and clients share one descriptor table) is lowered to leave 2*pairs+1 free numbers "
+        "(pairs 10..15 quick, 16..55 thorough); peers that stall after connect / inside the TLS hello / inside the HTTP request line / inside the first request line pile up one by one until the "
+        "table is full and the server's accept of the next connection fails with EMFILE (SEEN in the accept loop's / net/http's log line; off-by-one is repaired by releasing a reserve descriptor "
+        "and connecting exactly one more peer); then 50-95 % of them leave (seeded choice), the limit is given back, and A opens another logical connection while 1-2 new clients connect. "
+        "No accept error seen and nothing failed = inconclusive. Oracle: every good logical connection completes under the stall rule (no wall-clock deadline) while the stalled "
         "peers are still connected (their sockets are probed at the end and the state recorded); a scripted peer that is refused an answer "
         "it is entitled to on its way to its stall point counts as blocked too. Distinct = (kind, order, stall points, good clients, sizes); "
         "non-trivial = the good clients ran to a verdict.",
         ["loopback sockets stand for the network", "a peer that stalls for ever stands for every slower-than-the-observer peer; slow trickling senders are not driven",
          "a process-fatal panic of the server while garbage peers are served is attributed to the scenario marked last (driver: crash:<panic>@<site>)",
+         "descriptor-exhaustion scenario: a lowered RLIMIT_NOFILE in a process shared by server, peers and clients stands for a server process whose table silent peers have filled; the limit is restored before the good clients arrive (the harness itself must not run out of descriptors)",
          "long-stall scenario: sdns.ConnectionTimeout is lowered from 5 min to 30 s (the sweep interval itself is hard-coded; real sweeps are waited for)",
          "thorough's -race pass runs the quick case list; race reports are diagnostics only"],
         min_distinct=8)
